@@ -353,3 +353,43 @@ func VerifH18a() {
 		}
 	}
 }
+
+// ---------------------------------------------------------------------------
+// H18k — K successive message windows never overlap (C18), whatever state the
+// reader keeps between messages: from a fresh reader, K resets with symbolic
+// sizes (0..SMAX, so both sides of the 4 KiB granule) interleaved with
+// symbolic consumption of the current window (what the field accessors do).
+// Every window handed out so far stays disjoint from every later one. H18a
+// proves one step from an arbitrary *window*; this unrolling also covers
+// reader state that H18a does not know about.
+// ---------------------------------------------------------------------------
+func VerifH18k() {
+	K := vParam("K", 5)
+	SMAX := vParam("SMAX", 9000)
+	rd := &Reader{MaxMessageSize: 1 << 24}
+	var wins [][]byte
+	for k := 0; k < K; k++ {
+		size := nondetInt()
+		vAssume(vAnd(size >= 0, size <= SMAX))
+		rd.reset(size)
+		nw := rd.Msg
+		vAssert("len-is-size", len(nw) == size)
+		for _, w := range wins {
+			if vSameObject(w, nw) {
+				d := vDelta(w, nw)
+				vAssert("later-window-disjoint-from-earlier", vOr(len(nw) == 0, vOr(d >= len(w), d+len(nw) <= 0)))
+				vReach("same-array-reused")
+			}
+		}
+		if size > 0 {
+			wins = append(wins, nw)
+		}
+		// the handler consumes some of the window front to back
+		c := nondetInt()
+		vAssume(vAnd(c >= 0, c <= size))
+		rd.Msg = rd.Msg[c:]
+		if size >= 4096 {
+			vReach("large-window")
+		}
+	}
+}
